@@ -541,6 +541,12 @@ example : [fnmatch (cp! "a-c") (cp! "a[--z]c"), fnmatch (cp! "abc") (cp! "a[z-a]
            fnmatch (cp! "a[c") (cp! "a[c"), fnmatch (cp! "abcbd") (cp! "a*b?"),
            fnmatch (cp! "Web") (cp! "web")] =
     [true, false, true, true, true, true, false] := by decide
+-- `translate` drops a reversed range and reads what is left anew: `[b-[!]` becomes `[!]`-without-a-set,
+-- which matches every character; `[b-a]` never matches; `[b-a!-z]` is "neither `-` nor `z`"
+example : [fnmatch (cp! "a") (cp! "[b-[!]"), fnmatch (cp! "a") (cp! "[b-a]"), fnmatch (cp! "b") (cp! "[b-a]"),
+           fnmatch (cp! "q") (cp! "[b-a!-z]"), fnmatch (cp! "-") (cp! "[b-a!-z]"),
+           fnmatch (cp! "]") (cp! "[]-a]"), fnmatch (cp! "+") (cp! "[*--a]")] =
+    [true, false, false, true, false, true, true] := by decide
 -- the hypotheses of `C16_expansion` on a concrete reference
 example : lowerS (cp! "CiRcUs.") = cp! "circus." ∧ lowerS (cp! "ENV.") = cp! "env." ∧
     (∀ c ∈ cp! "w-x.1", isNameChar c = true) ∧
